@@ -264,12 +264,25 @@ def gen_block(rng, name):
             edits.refused_operations(name, b, rng)
         except Exception:
             pass
+    if name == "Data2D" and rng.random() < 0.2:
+        # one cell with thousands of points (legal up to 65 535): the block's size no longer fits 16 bits
+        cells = [(f, c) for f in range(b.nFrames) for c in range(b.nCams)]
+        if cells:
+            f, c = rng.choice(cells)
+            b.data[f, c] = gen.f32_words(rng, 2 * rng.choice([8192, 8200, 20000])).reshape(-1, 2).copy()
     if rng.random() < 0.2:
         # dates before 1970 are legal (signed 32-bit seconds)
         from datetime import datetime as _dt
         b.creation_date = _dt(1965, 5, 6, 7, 8, 9)
         if rng.random() < 0.5:
             b.last_modification_date = _dt(1969, 12, 31, 12, 0, 0)
+    if rng.random() < 0.15:
+        # timezone-aware dates denote an instant as well as naive ones do (the entry stores the instant's seconds)
+        from datetime import datetime as _dt, timedelta as _td, timezone as _tz
+        tz = _tz(_td(hours=rng.choice([5, -7, 9]), minutes=rng.choice([0, 30])))
+        b.creation_date = _dt(2021, 6, 1, 12, 0, 0, tzinfo=tz)
+        if rng.random() < 0.5:
+            b.last_modification_date = _dt(2022, 1, 2, 3, 4, 5, tzinfo=tz)
     if rng.random() < 0.25:
         # a frame with an infinite leading component (the library stores it as a missing frame, DESIGN 3.4): the container
         # clauses -- entry size = bytes stored, what is read back re-encodes to the stored bytes -- hold all the same
@@ -392,8 +405,14 @@ def run_history(seed, si, tier, focus=None):
             return [_f("harness", "harness.initial", "the independently written start file is not compact: " + f0[0]["message"], case, seed)]
         ops_log = []
         model_lost = False
-        for ctxi in range(rng.randint(1, 3)):
-            tdf = Tdf(path)
+        objs = []                         # objects used earlier on this file (writers and readers): a later context may reuse one
+        for ctxi in range(rng.randint(1, 4)):
+            if objs and rng.random() < 0.4:
+                tdf = rng.choice(objs)        # an object whose earlier context ended before other objects changed the file
+                case = dict(case, reused_object=True)
+            else:
+                tdf = Tdf(path)
+                objs.append(tdf)
             refused_here = False          # a request was refused in this session: what goes wrong afterwards is C07's business too
             with tdf.allow_write() as t:
                 for step in range(rng.randint(1, 6)):
@@ -408,6 +427,8 @@ def run_history(seed, si, tier, focus=None):
                     if names_live:
                         choices += ["replace", "replace_comment", "setter_replace"]
                     choices += ["reject"] * 3
+                    if len(live) < model.N:
+                        choices += ["remove_unused"]      # 'removing' the unused-slot type is accepted by the library: nothing may change
                     if not choices:
                         break
                     op = rng.choice(choices)
@@ -430,6 +451,9 @@ def run_history(seed, si, tier, focus=None):
                             desc = f"{op} {nm}"
                             model.live.append(dict(type=TYPE_OF[nm], format=b.format.value if not isinstance(b.format, int) else int(b.format), payload=real_write(nm, b), comment=used,
                                                    cdate=secs(b.creation_date), mdate=secs(b.last_modification_date), fresh=True))
+                        elif op == "remove_unused":
+                            desc = "remove_block(BlockType.unusedSlot)"
+                            t.remove_block(BlockType.unusedSlot)
                         elif op == "remove":
                             ty = rng.choice(live)
                             desc = f"remove type {ty} (position {live.index(ty)} of {len(live)})"
@@ -506,8 +530,10 @@ def run_history(seed, si, tier, focus=None):
             c2 = dict(case, ops=list(ops_log) + ["reopen"])
             fl, _ = check_disk(path, model, c2, seed, "after closing the context")
             fails += fl
-            with Tdf(path) as t2:
+            rd = Tdf(path)
+            with rd as t2:
                 fails += check_memory(t2, path, model, c2, seed, "after reopening")
+            objs.append(rd)
             if len(fails) > 12:
                 return fails
         return fails
@@ -682,6 +708,8 @@ def check_same_size_replace(seed, tier):
             b = gen.data3d(rng, 1, nf + 1, fmt=Data3dBlockFormat.byTrackWithoutLinks, masks=[[k != gap for k in range(nf + 1)]])
             if a.nBytes != b.nBytes:
                 continue
+            a2 = gen.data3d(rng, 1, nf, fmt=Data3dBlockFormat.byTrack, nlinks=0, masks=[[True] * nf])
+            a2.creation_date, a2.last_modification_date = a.creation_date, a.last_modification_date
             path = os.path.join(d, f"s{i}.tdf")
             Tdf.new(path)
             model = Model(14, [])
@@ -694,7 +722,10 @@ def check_same_size_replace(seed, tier):
                 steps = [("add Events", lambda: t.add_block(ev), lambda: model.live.append(entry("Events", ev))),
                          ("add Data3D byTrack (last block)", lambda: t.add_block(a), lambda: model.live.append(entry("Data3D", a))),
                          ("data3D = byTrackWithoutLinks block of the same size", lambda: setattr(t, "data3D", b), lambda: (model.live.pop(), model.live.append(entry("Data3D", b)))),
-                         ("replace_block(byTrack block of the same size, comment)", lambda: t.replace_block(a, comment="again"), lambda: (model.live.pop(), model.live.append(entry("Data3D", a, "again"))))]
+                         ("replace_block(byTrack block of the same size, comment)", lambda: t.replace_block(a, comment="again"), lambda: (model.live.pop(), model.live.append(entry("Data3D", a, "again")))),
+                         # same size, same format, same place in the file, other samples: only the payload tells them apart
+                         ("replace_block(byTrack block of the same size and format, other samples)", lambda: t.replace_block(a2), lambda: (model.live.pop(), model.live.append(entry("Data3D", a2, "again")))),
+                         ("data3D = the first block again", lambda: setattr(t, "data3D", a), lambda: (model.live.pop(), model.live.append(entry("Data3D", a, "again"))))]
                 for desc, call, upd in steps:
                     n += 1
                     log.append(desc)
